@@ -591,7 +591,7 @@ def replay(case):
         from mc.checks import c04_amb
 
         return c04_amb.replay(case)
-    if case.get("part") in ("zero_limits", "reused_hashers", "versioned", "aliases"):
+    if case.get("part") in ("zero_limits", "reused_hashers", "versioned", "aliases", "derived"):
         from mc.checks import c04_zero
 
         return c04_zero.replay(case)
@@ -755,6 +755,8 @@ def run(ctx):
     ctx.merge(core.pmap(c04_zero.work_versioned, c04_zero.tasks_versioned()), part="versioned")
     # part "aliases": legacy spellings and positional arguments of the decisions
     ctx.merge(core.pmap(c04_zero.work_aliases, c04_zero.tasks_aliases()), part="aliases")
+    # part "derived": the policy after copy / update / using / export+import / load(other context), incl. empty per-category lists
+    ctx.merge(core.pmap(c04_zero.work_derived, c04_zero.tasks_derived()), part="derived")
     ctx.cov["states"] = acc.counters["states"]
     ctx.cov["transitions"] = acc.counters["transitions"]
     ctx.cov["traces_validated_against_impl"] = acc.counters["histories"]
